@@ -68,6 +68,8 @@ class ExprMixin:
             return self.ctx.val_of(v.elem_kind, fn(v.owner.t, i))
         if isinstance(v, VSeq):
             return self.ctx.val_of(v.elem_kind, self.seq_nth(v.t, i))
+        if isinstance(v, VStr):
+            return VStr(z3.SubString(v.t, i, 1))
         if isinstance(v, (VList, VTuple)):
             if z3.is_int_value(i):
                 k = i.as_long()
@@ -135,6 +137,17 @@ class ExprMixin:
         el = self.at(v, i, path)
         srt = z3.SeqSort(self.ctx.sorts.sort_of(v.elem_kind))
         decl, args = self.ctx.folds.make('concat', z3.Unit(el.t), i, z3.Empty(srt), z3.Concat, srt)
+        key = ('unitlen', decl.get_id())
+        if key not in self.ctx.str_fns and len(args) == 1:
+            # engine schema (DESIGN 2.5): the sequence of the first n elements of a list has length n and its
+            # k-th element is the k-th element of the list
+            self.ctx.str_fns[key] = True
+            o = z3.Const('o!u', args[0].sort())
+            n, k = z3.Int('n!u'), z3.Int('k!u')
+            app = decl(o, n)
+            self.ctx.axioms.append(z3.ForAll([o, n], z3.Implies(n >= 0, z3.Length(app) == n), patterns=[app]))
+            self.ctx.definitional.add(id(self.ctx.axioms[-1]))
+            self.ctx.assumptions.add('engine schema: the sequence built from the first n elements of a list field has length n')
         return decl(*(args + [self.length(v, path)]))
 
     def coerce(self, v, kind):
@@ -550,6 +563,9 @@ class ExprMixin:
         if isinstance(base, VModule):
             mod = self.ctx.index.module(base.dotted)
             if mod is None:
+                if base.dotted == 'string' and name in ('ascii_letters', 'digits', 'ascii_lowercase', 'ascii_uppercase'):
+                    import string as _string
+                    return VStrConst(getattr(_string, name))
                 return VLib(base.dotted, name)
             saved = self.cur_mod
             self.cur_mod = mod
